@@ -1,6 +1,8 @@
+import Heathcliff.Proofs.C02X
 import Heathcliff.Proofs.C02W
 import Heathcliff.Proofs.C02V
 import Heathcliff.Proofs.C02K
+import Heathcliff.Proofs.GenEval
 
 /- Property theorems only (statements verbatim; proofs are the helper lemmas of Heathcliff/Proofs). -/
 namespace HC.C02
@@ -197,5 +199,123 @@ theorem bfvMultiply_coeff_of_new : type_of% @HC.bfvMultiply_coeff_of_new := @HC.
     `Q · phase_s(D) + phase_s(E) = t · phase_s(X) · phase_s(Y)`, i.e. `phase(result) = (t·phase(X)·phase(Y) − phase_s(E))/Q`,
     where `X`, `Y` are the lifted operands of `bfvLift_spec` (≡ the inputs modulo every q_i, size ≤ Q/2 + |q|Q/2^32). -/
 theorem bfvMultiply_phase : type_of% @HC.bfvMultiply_phase := @HC.bfvMultiply_phase
+
+/-! ### translator tie (phase 3): `Evaluator::balance_correction_factors` (src/evaluator.rs) generated into Gen/EvalFns.lean equals
+     `balanceCorrectionFactors` of Model/Evaluator.lean (Proofs/GenEval.lean).  The hypotheses are the types of the parameters
+     (`factor2 : u64`), the domain of the `try_invert_u64_mod_u64` tie (`factor1 < 2^63`, the `as i64` casts) and a well-formed plain
+     modulus (2 ≤ t < 2^61 with its Barrett ratio: what `Modulus::new` builds).  On that domain NONE of the overflow-checked i64
+     operations of the code that the hand model leaves unchecked (`x as i64 - t as i64`, `abs`, `+`, `/`, `%`, `q * b`) can trap: the
+     proof carries the invariant of the extended Euclid (0 ≤ a ≤ prev_a ≤ t, alternating cofactor signs, |b|·prev_a + |prev_b|·a = t). -/
+theorem gen_balance_correction_factors_eq {t : Modulus} (ht : t.WF) (f1 f2 : Nat) (h1 : f1 < 2^63) (h2 : f2 < 2^64) :
+    GenE.balance_correction_factors f1 f2 t = balanceCorrectionFactors f1 f2 t := HC.gy_balance_correction_factors_eq ht f1 f2 h1 h2
+
+/-- the closure `sum_abs` of the code = |bal x| + |bal y| of the hand model (no i64 trap below 2^62) -/
+theorem gen_balance_sum_abs_eq (t x y : Nat) (ht : t < 2^61) (hx : x < 2^62) (hy : y < 2^62) :
+    GenE.balance_correction_factors_closure1 t (t >>> 1) x y = .ok (((gy_bal t x).natAbs + (gy_bal t y).natAbs : Nat) : Int) :=
+  HC.gy_closure1_eq t x y ht hx hy
+
+/-- the generated loop = the hand model's `balanceLoop` followed by the final `multiply_u64_mod`, from any state satisfying the Euclid invariant -/
+theorem gen_balance_loop_eq {t : Modulus} (ht : t.WF) (f1 fuel : Nat) (prevA a prevB b : Int) (e1 e2 : Nat) (sum : Int)
+    (hI : gy_Inv t.value prevA a prevB b) :
+    GenE.balance_correction_factors_loop1 f1 t t.value (t.value >>> 1) fuel e1 e2 sum prevA prevB a b
+    = (balanceLoop t fuel prevA a prevB b e1 e2 sum >>= fun r => mulMod r.1 f1 t >>= fun f => pure (f, r.1, r.2)) :=
+  HC.gy_loop_eq ht f1 fuel prevA a prevB b e1 e2 sum hI
+
+
+/-! ### BEHZ multiply: noise growth bound, exact decoding of the product, soundness of the harness's conservative budget rule, model-level `bfvDecrypt (bfvMultiply a b) = trim (decode a * decode b)`
+    (statements, hypothesis bundles and non-vacuity instances: Heathcliff/Proofs/C02X.lean, section "Property theorems") -/
+
+/-- X1, operands (the invariant-noise convention of `Spec.budget`): every phase coefficient splits as `t·x = Q·m + ν` with
+    `ν = [t·x]_Q` the centred residue measured by the budget (`c07l_v true t Q x`), `2|ν| ≤ Q`, `m = c02x_msg t Q x` -/
+theorem bfv_noise_split : type_of% @HC.bfv_noise_split := @HC.bfv_noise_split
+
+/-- X1 (ANY operand sizes ≥ 1, any integer secret key).  With the exact centred phases `x_a, x_b, x_r` (`Spec.phase`) of the
+    operands and of the result of `bfvMultiply`, `Q = Π q_i`, `t·x_a = Q·m_a + ν_a`, `t·x_b = Q·m_b + ν_b` (`bfv_noise_split`),
+    `‖ν_a‖∞ ≤ V_a`, `‖ν_b‖∞ ≤ V_b`: for every coefficient `c`
+    `t·x_r[c] = Q·μ + ν`,  `μ ≡ (m_a ⋆ m_b)[c] (mod t)` (⋆ negacyclic over ℤ),  `2·2^33·|ν| ≤ c02x_F N t |q| ‖s‖₁ n_a n_b V_a V_b`,
+    i.e. `‖ν_mul‖∞ ≤ N·t·(½+|q|/2^32)·(G_a·V_b + G_b·V_a) + N·(V_a+2V_b)/2 + t·|q|·G_r`, `G_x = Σ_{k<n_x}‖s‖₁^k`, `G_r = Σ_{k<n_a+n_b−1}‖s‖₁^k`. -/
+theorem bfvMultiply_noise : type_of% @HC.bfvMultiply_noise := @HC.bfvMultiply_noise
+
+/-- X1 for two fresh-size ciphertexts (2 × 2 → size 3, phase `c0 + c1·s + c2·s²`): the bound with the geometric sums spelled out -/
+theorem bfvMultiply_noise_2x2 : type_of% @HC.bfvMultiply_noise_2x2 := @HC.bfvMultiply_noise_2x2
+
+/-- X2 (decoding, ANY sizes): if the operand noises are below Q/2 and the bound `F` of `bfvMultiply_noise` is below `2^33·Q`
+    (i.e. `‖ν_mul‖∞ < Q/2`), the exact decoding of the product's phase is the negacyclic product modulo `(X^N+1, t)` of the
+    exact decodings of the operands' phases -/
+theorem bfvMultiply_decode : type_of% @HC.bfvMultiply_decode := @HC.bfvMultiply_decode
+
+/-- X3 (model level): `bfvDecrypt (bfvMultiply a b) = trim (decode(a) ⋆ decode(b) mod (X^N+1, t))` under the BEHZ decryption
+    threshold `γ·F + 2^34·|q|·Q ≤ 2^33·Q·γ` (`‖ν_mul‖∞ ≤ Q·(½ − |q|/γ)`; it implies X2's condition `F < 2^33·Q`) -/
+theorem bfvDecrypt_bfvMultiply : type_of% @HC.bfvDecrypt_bfvMultiply := @HC.bfvDecrypt_bfvMultiply
+
+theorem c02x_noiseNorm_half : type_of% @HC.c02x_noiseNorm_half := @HC.c02x_noiseNorm_half
+
+/-- X2, budget form (ANY sizes).  With the noise-growth factor `G = c02x_G N t |q| ‖s‖₁ n_a n_b`
+    (`≈ N·t·(2^33+4|q|)·(G_a + G_b) + 3·2^33·N + 2^34·t·|q|·G_r`, scaled by 2^34) and any `L` with `G ≤ 2^(34+L)`:
+    `budget(result) ≥ min(budget a, budget b, bits(Q) − 2) − L`. -/
+theorem bfvMultiply_budget : type_of% @HC.bfvMultiply_budget := @HC.bfvMultiply_budget
+
+/-- X2 from budgets (ANY sizes): if `G ≤ 2^(34+L)` and both operand budgets are at least `L + 2` bits, the decoding of the product
+    is exact (X2's threshold holds) -/
+theorem bfvMultiply_decode_of_budget : type_of% @HC.bfvMultiply_decode_of_budget := @HC.bfvMultiply_decode_of_budget
+
+/-- X2, the harness rule `Prog::pred_mul` (harness/src/c02.rs: `min(pred a, pred b) − (log2 t + 2·log2 N + 10 + size a + size b)`)
+    is SOUND for 2 × 2 products, for every secret with `‖s‖₁ ≤ N` (e.g. ternary), `t ≤ 2^lt`, `N = 2^k`:
+    (i) the true budget of the product is at least `min(budget a, budget b) − (lt + 2k + 9)` — the rule subtracts `lt + 2k + 14`;
+    (ii) whenever `min(budget a, budget b) ≥ lt + 2k + 10` (in particular whenever the rule predicts ≥ 1 bit from lower bounds of
+    the operand budgets) the decoding of the product is exact. -/
+theorem pred_mul_sound_2x2 : type_of% @HC.pred_mul_sound_2x2 := @HC.pred_mul_sound_2x2
+
+/-- X3 with every hypothesis bundle discharged from the model's constructors (`RNSBase.new`, `RNSTool.new`, `NTTTables.new`; at most
+    62 moduli, auxiliary moduli ≥ 2^61 − 2^54, `min(n_a, n_b)·N ≤ 2^30`): decryption of the product is the negacyclic product of the
+    operands' exact decodings whenever the noise bound satisfies `F ≤ (2^33 − 1)·Q` (`‖ν_mul‖∞ ≤ Q/2·(1 − 2^-33)`; the BEHZ
+    γ-correction costs nothing more because γ > 2^60) -/
+theorem bfvDecrypt_bfvMultiply_of_new : type_of% @HC.bfvDecrypt_bfvMultiply_of_new := @HC.bfvDecrypt_bfvMultiply_of_new
+
+/-- X2, the worst-case-sound form of the product rule for ANY operand sizes `n_a, n_b ≥ 2` (secret with `‖s‖₁ ≤ N`, `N = 2^k ≥ 2`,
+    `t ≤ 2^lt`): (i) `budget(result) ≥ min(budget a, budget b) − (lt + (n_a+n_b−2)·k + 9)`; (ii) decoding of the product is exact
+    whenever `min(budget a, budget b) ≥ lt + (n_a+n_b−2)·k + 10`.  The harness rule subtracts `lt + 2k + 10 + n_a + n_b`; it is
+    covered by this worst-case bound exactly when `(n_a+n_b−4)·k ≤ n_a+n_b` (always for 2 × 2, see `pred_mul_sound_2x2`). -/
+theorem pred_mul_sound_general : type_of% @HC.pred_mul_sound_general := @HC.pred_mul_sound_general
+
+/-- X3 from budgets (ANY sizes): with `G ≤ 2^(34+L)`, both operand budgets `≥ L + 3` bits and γ ≥ 2^40, the model's decryption
+    of the model's product is the negacyclic product modulo t of the operands' exact decodings -/
+theorem bfvDecrypt_bfvMultiply_of_budget : type_of% @HC.bfvDecrypt_bfvMultiply_of_budget := @HC.bfvDecrypt_bfvMultiply_of_budget
+
+/-- X3, end to end for two size-2 ciphertexts on a level built by the model's constructors, in the terms of the harness rule:
+    whenever both operand budgets are at least `lt + 2k + 11` bits (in particular whenever `Prog::pred_mul`, which subtracts
+    `lt + 2k + 14`, predicts ≥ 1 bit from lower bounds of the operand budgets), `bfvDecrypt (bfvMultiply a b)` succeeds and equals
+    `trim (decode a ⋆ decode b mod (X^N+1, t))` -/
+theorem pred_mul_decrypt_2x2_of_new : type_of% @HC.pred_mul_decrypt_2x2_of_new := @HC.pred_mul_decrypt_2x2_of_new
+
+/-- `c02x_NoiseLe` is always satisfied by the norm `Spec.budget` is computed from -/
+theorem c02x_noiseLe_norm : type_of% @HC.c02x_noiseLe_norm := @HC.c02x_noiseLe_norm
+
+/-- X2, budget form with the multiplicative and the additive (BEHZ) parts separated (ANY sizes): if `c02x_G1 ≤ 2^(34+L1)` and
+    `2^34·t·|q|·G_r ≤ 2^(34+L2)` then `budget(result) ≥ min(budget a, budget b) − L1 − 1` or `budget(result) ≥ bits(Q) − L2 − 3`
+    (i.e. `budget(result) ≥ min(min(budget a, budget b) − L1 − 1, bits(Q) − L2 − 3)`) -/
+theorem bfvMultiply_budget_split : type_of% @HC.bfvMultiply_budget_split := @HC.bfvMultiply_budget_split
+
+/-- X2 from budgets, split form (ANY sizes): `c02x_G1 ≤ 2^(34+L1)`, additive part `≤ 2^(34+L2)`, both operand budgets `≥ L1 + 2`
+    and `bits(Q) ≥ L2 + 3` give exact decoding of the product -/
+theorem bfvMultiply_decode_of_budget_split : type_of% @HC.bfvMultiply_decode_of_budget_split := @HC.bfvMultiply_decode_of_budget_split
+
+/-- X2, the harness rule `Prog::pred_mul` is SOUND for the directed shapes of the harness (2×2, 3×2, 2×3), for at most 8 moduli,
+    `N = 2^k` with `1 ≤ k ≤ 8`, `‖s‖₁ ≤ N`, `t ≤ 2^lt`:
+    (i) the rule's value `p = min(budget a, budget b) − (lt + 2k + 10 + n_a + n_b)` is a LOWER BOUND of the true budget of the product;
+    (ii) when the rule predicts at least one bit the decoding of the product is exact. -/
+theorem pred_mul_sound_small : type_of% @HC.pred_mul_sound_small := @HC.pred_mul_sound_small
+
+/-- X1, chaining form: the invariant noise of the product (the quantity `Spec.budget` measures) is bounded by `F / 2^34`, so the
+    result can be fed to the next `bfvMultiply_noise` -/
+theorem bfvMultiply_noiseLe : type_of% @HC.bfvMultiply_noiseLe := @HC.bfvMultiply_noiseLe
+
+/-- why X3 needs `n_a + n_b ≥ 3`: the product of two single-polynomial operands succeeds (size 1) and decryption REFUSES it -/
+theorem bfvDecrypt_bfvMultiply_refuses_1x1 : type_of% @HC.bfvDecrypt_bfvMultiply_refuses_1x1 := @HC.bfvDecrypt_bfvMultiply_refuses_1x1
+
+/-- refusal: operands in NTT form never reach decryption -/
+theorem bfvDecrypt_bfvMultiply_refuses_ntt : type_of% @HC.bfvDecrypt_bfvMultiply_refuses_ntt := @HC.bfvDecrypt_bfvMultiply_refuses_ntt
+
+theorem c02x_threshold_example : type_of% @HC.c02x_threshold_example := @HC.c02x_threshold_example
 
 end HC.C02
